@@ -223,4 +223,16 @@ def run(chk: Check):
     rule_h2(chk, ir)
     rule_h3(chk, tr.interp, ir)
     rule_h4(chk, ir)
+    # the subprocess forms, the p-string flag and the backtick lexeme are C05 constructs: their own rule sets (C06 P1-P4,
+    # C14 N2, C09 K6) are necessary conditions of C05 and are evaluated here under their own rule ids
+    from . import c06, c09
+    from .. import constfold, macros
+    from ..pyflow import Index
+    ix = Index()
+    c06.rule_p1(chk, ir, tr.interp)
+    c06.rule_p2(chk, ix, ir)
+    c06.rule_p3(chk, ix, ir)
+    c06.rule_p4(chk, ix, tr.interp)
+    macros.rule_n2(chk, ix, ir)
+    c09.rule_k6(chk, constfold.fold_tokenize(), ix, False)
     chk.floor("H2-placement", 7)
